@@ -633,6 +633,20 @@ impl OcflStore for S3OcflStore {
             Ok(object_root) => object_root,
         };
 
+        // Two ids can map to the same path, e.g. under the omit-prefix layouts. Only the object
+        // that was asked for may be removed.
+        if let Ok(Some(inventory)) = self.parse_inventory(&object_root) {
+            if inventory.id != object_id {
+                return Err(RocflError::CorruptObject {
+                    object_id: object_id.to_string(),
+                    message: format!(
+                        "Expected object to exist at {} but found object {} instead.",
+                        object_root, inventory.id
+                    ),
+                });
+            }
+        }
+
         info!("Purging object {} at {}", object_id, object_root);
 
         let mut failed = false;
